@@ -101,6 +101,14 @@ def assign_target(self, target, val, st: State):
                 res = bind(res, lambda s, _x, t=t, v=v: self.assign_target(t, v, s))
             return res
         raise Unsupported(f"unpack of {val!r}")
+    if isinstance(target, ast.Subscript):
+        # item assignment on a modelled dependency object (e.g. the context storage dict)
+        res = self.eval(target.value, st)
+        if len(res) == 1 and res[0][0] == OK and hasattr(res[0][2], "vc_setitem"):
+            def k0(s, key):
+                res[0][2].vc_setitem(self, s, key, val)
+                return [(OK, s, None)]
+            return _expr_results(bind(self.eval(target.slice, res[0][1]), k0))
     if isinstance(target, (ast.Attribute, ast.Subscript)):
         def k(s, lv):
             self.write_lv(s, lv, val)
